@@ -52,8 +52,9 @@ def strip_ctx(node: ast.AST) -> ast.AST:
 # ----------------------------------------------------------------------------- patterns
 def pat(src: str, mode: str = "eval") -> ast.AST:
     """Parse a pattern.  `$x` is a metavariable (binds any expression; repeated occurrences must bind
-    structurally equal expressions), `$_` is a wildcard.  In call argument lists `*$rest` absorbs the
-    remaining positional arguments and `**$kw` any keywords."""
+    structurally equal expressions), `$_` is a wildcard.  In call argument lists a trailing `*$ARGS` (any
+    metavariable whose name starts with ARGS) absorbs the remaining positional arguments and `**$kw` any
+    keywords; any other `*$x` matches a starred argument."""
     s = re.sub(r"\$(\w+)", lambda m: MV + m.group(1), src)
     if mode == "eval":
         return ast.parse(s, mode="eval").body
@@ -118,7 +119,7 @@ def _m_call(p: ast.Call, n: ast.Call, b) -> bool:
         return False
     pargs = list(p.args)
     rest_mv = None
-    if pargs and isinstance(pargs[-1], ast.Starred) and _is_mv(pargs[-1].value) is not None:
+    if pargs and isinstance(pargs[-1], ast.Starred) and (_is_mv(pargs[-1].value) or "").startswith("ARGS"):
         rest_mv = _is_mv(pargs[-1].value)
         pargs = pargs[:-1]
     if rest_mv is None:
@@ -129,7 +130,7 @@ def _m_call(p: ast.Call, n: ast.Call, b) -> bool:
     for x, y in zip(pargs, n.args):
         if not _m(x, y, b):
             return False
-    if rest_mv not in (None, "_"):
+    if rest_mv is not None:
         b[rest_mv] = list(n.args[len(pargs):])
     pk = {k.arg: k.value for k in p.keywords if k.arg is not None}
     any_kw = any(k.arg is None and _is_mv(k.value) is not None for k in p.keywords)
@@ -334,9 +335,11 @@ class Scope:
             return a[0]
         return None
 
-    def resolve(self, expr: ast.AST, depth: int = 8, allow_mutated: bool = False) -> ast.AST:
-        """Copy of expr with inlinable locals substituted by their defining expressions."""
+    def resolve(self, expr: ast.AST, depth: int = 8, allow_mutated: bool = False, keep=()) -> ast.AST:
+        """Copy of expr with inlinable locals substituted by their defining expressions (names in `keep`
+        are left alone)."""
         sc = self
+        keep = set(keep)
 
         class T(ast.NodeTransformer):
             def __init__(self, d, bound):
@@ -344,7 +347,7 @@ class Scope:
                 self.bound = bound
 
             def visit_Name(self, node):
-                if node.id in self.bound or self.d <= 0:
+                if node.id in self.bound or self.d <= 0 or node.id in keep:
                     return node
                 v = sc.single_def(node.id, allow_mutated)
                 if v is None:
